@@ -163,6 +163,12 @@ fn ffi_server(rt: &FfiRuntime, variant: Variant, filter: &FilterSpec, ip: &str, 
 }
 
 fn ffi_server_once(rt: &FfiRuntime, variant: Variant, filter: &FilterSpec, ip: &str, points: Vec<DbOp>, wstate: Arc<Mutex<WriteState>>, set: [bool; 4]) -> Result<(FfiServer, SocketAddr, Arc<Mutex<AuthLog>>), String> {
+    ffi_server_tls(rt, variant, filter, ip, points, wstate, set, ("ca_a", "srv_valid", 0, 0))
+}
+
+/// `tls` = (certificate to trust, local certificate, MinTlsVersion value, CertificateMode value)
+#[allow(clippy::too_many_arguments)]
+fn ffi_server_tls(rt: &FfiRuntime, variant: Variant, filter: &FilterSpec, ip: &str, points: Vec<DbOp>, wstate: Arc<Mutex<WriteState>>, set: [bool; 4], tls: (&str, &str, c_int, c_int)) -> Result<(FfiServer, SocketAddr, Arc<Mutex<AuthLog>>), String> {
     let parts = filter_parts(filter);
     let filt = ffi_filter(&parts).map_err(|rc| format!("address_filter_create/add -> {rc}"))?;
     let (wh, _d) = write_handler(wstate, set);
@@ -171,11 +177,12 @@ fn ffi_server_once(rt: &FfiRuntime, variant: Variant, filter: &FilterSpec, ip: &
     let ipc = cstr(ip.trim_matches(|c| c == '[' || c == ']'));
     let mut out: *mut rodbus_ffi::Server = null_mut();
     let log = Arc::new(Mutex::new(AuthLog::default()));
-    let trust = cstr(cert_path("ca_a").to_str().unwrap());
-    let local = cstr(cert_path("srv_valid").to_str().unwrap());
-    let key = cstr(key_path("srv_valid").to_str().unwrap());
+    let (trust_name, local_name, min_tls, cert_mode) = tls;
+    let trust = cstr(cert_path(trust_name).to_str().unwrap());
+    let local = cstr(cert_path(local_name).to_str().unwrap());
+    let key = cstr(key_path(local_name).to_str().unwrap());
     let empty = cstr("");
-    let tls = ffi::TlsServerConfig { peer_cert_path: trust.as_ptr(), local_cert_path: local.as_ptr(), private_key_path: key.as_ptr(), password: empty.as_ptr(), min_tls_version: 0, certificate_mode: 0 };
+    let tls = ffi::TlsServerConfig { peer_cert_path: trust.as_ptr(), local_cert_path: local.as_ptr(), private_key_path: key.as_ptr(), password: empty.as_ptr(), min_tls_version: min_tls, certificate_mode: cert_mode };
     let rc = unsafe {
         match variant {
             Variant::Tcp => ffi::rodbus_server_create_tcp(rt.0, ipc.as_ptr(), port, filt, 4, map, decode_nothing(), &mut out),
@@ -2128,31 +2135,458 @@ fn c18_enums(rt: &FfiRuntime) -> Stats {
     st
 }
 
+/// TLS configuration through the C ABI: minimum version, certificate mode, the name to expect and
+/// the wildcard switch, judged by behaviour against independent rustls peers (the admission
+/// predicate is C09's, which the Rust API satisfies cell by cell)
+fn c18_tls(rt: &FfiRuntime) -> Stats {
+    use crate::net::PeerVersions;
+    let mut st = Stats::default();
+    // (a) server created through the C ABI
+    for variant in [Variant::Tls, Variant::TlsAuthz] {
+        for min13 in [false, true] {
+            for self_signed in [false, true] {
+                for peer in [PeerVersions::Tls12Only, PeerVersions::Tls13Only] {
+                    for valid in [true, false] {
+                        let (trust, present) = match (self_signed, valid) {
+                            (false, true) => ("ca_a", "cli_operator"),
+                            (false, false) => ("ca_a", "cli_wrong_ca"),
+                            (true, true) => ("ss_client", "ss_client"),
+                            (true, false) => ("ss_client", "ss_client_other"),
+                        };
+                        let local = if self_signed { "ss_server" } else { "srv_valid" };
+                        let expect = valid && !(min13 && peer == PeerVersions::Tls12Only);
+                        let server = (0..8).find_map(|_| ffi_server_tls(rt, variant, &FilterSpec::Any, "127.0.0.1", ten_registers(), Arc::new(Mutex::new(WriteState::default())), [true; 4], (trust, local, min13 as c_int, self_signed as c_int)).ok());
+                        let (server, addr, _log) = match server {
+                            Some(x) => x,
+                            None => {
+                                st.violation(Violation { signature: "MACHINERY:c-abi-server".into(), summary: "TLS server could not be created through the C ABI".into(), replay: json!({}) });
+                                return st;
+                            }
+                        };
+                        let present = present.to_string();
+                        let (served, version) = crate::net::rt().block_on(async move {
+                            let mut served = false;
+                            let mut version = "none".to_string();
+                            if let Ok(tcp) = crate::net::connect_from("127.0.0.1", addr).await {
+                                let connector = tokio_rustls::TlsConnector::from(crate::net::peer_client_config(peer, &present));
+                                let name = tokio_rustls::rustls::pki_types::ServerName::try_from("test.com").unwrap();
+                                if let Ok(Ok(mut tls)) = tokio::time::timeout(Duration::from_secs(3), connector.connect(name, tcp)).await {
+                                    version = crate::net::version_name(tls.get_ref().1.protocol_version());
+                                    crate::net::write_all(&mut tls, &mbap_frame(0x0C0C, 1, &[3, 0, 0, 0, 2])).await;
+                                    if let crate::net::ReadOutcome::Bytes(b) = crate::net::read_n(&mut tls, 13, Duration::from_secs(3)).await {
+                                        served = b[..2] == [0x0C, 0x0C] && b[7] == 3;
+                                    }
+                                }
+                            }
+                            (served, version)
+                        });
+                        drop(server);
+                        st.evaluations += 1;
+                        st.class("config:tls-server");
+                        st.observe(&(format!("{variant:?}"), min13, self_signed, peer, valid, served));
+                        if served != expect || (served && min13 && version != "1.3") {
+                            st.violation(Violation {
+                                signature: format!("tls-server-config-not-forwarded:min13={min13}:self_signed={self_signed}"),
+                                summary: format!("C ABI {variant:?} server, min version {}, {} mode, peer {peer:?} with a {} certificate: served={served} at TLS {version}, the same-named Rust configuration gives served={expect}", if min13 { "1.3" } else { "1.2" }, if self_signed { "self-signed" } else { "authority" }, if valid { "valid" } else { "wrong" }),
+                                replay: json!({"kind": "c18-enums"}),
+                            });
+                        }
+                    }
+                }
+            }
+        }
+    }
+    // (b) client created through the C ABI
+    // (mode self-signed?, min 1.3?, peer versions, certificate the peer presents, name, wildcard switch, expected admission)
+    let mut cells: Vec<(bool, bool, PeerVersions, &str, &str, bool, bool)> = vec![];
+    for min13 in [false, true] {
+        for peer in [PeerVersions::Tls12Only, PeerVersions::Tls13Only] {
+            let v_ok = !(min13 && peer == PeerVersions::Tls12Only);
+            cells.push((false, min13, peer, "srv_valid", "test.com", false, v_ok));
+            cells.push((false, min13, peer, "srv_wrong_ca", "test.com", false, false));
+            cells.push((true, min13, peer, "ss_server", "test.com", false, v_ok));
+            cells.push((true, min13, peer, "ss_server_other", "test.com", false, false));
+        }
+    }
+    cells.push((false, false, PeerVersions::Both, "srv_valid", "other.example", false, false));
+    cells.push((false, false, PeerVersions::Both, "srv_wrong_name", "test.com", false, false));
+    cells.push((false, false, PeerVersions::Both, "srv_wrong_name", "test.com", true, false));
+    cells.push((false, false, PeerVersions::Both, "srv_wrong_name", "*", true, true));
+    cells.push((false, false, PeerVersions::Both, "srv_wrong_ca", "*", true, false));
+    // without the switch a '*' does not bypass name validation
+    cells.push((false, false, PeerVersions::Both, "srv_wrong_name", "*", false, false));
+    for (self_signed, min13, peer, present, name, wildcard, expect) in cells {
+        // the peer: an independent rustls server that answers one read request
+        let (addr_tx, addr_rx) = std::sync::mpsc::channel();
+        let present_s = present.to_string();
+        let (stop_tx, mut stop_rx) = tokio::sync::oneshot::channel::<()>();
+        let peer_task = crate::net::rt().spawn(async move {
+            let (listener, addr) = crate::net::listen("127.0.0.1").await;
+            let _ = addr_tx.send(addr);
+            let acceptor = tokio_rustls::TlsAcceptor::from(crate::net::peer_server_config(peer, &present_s));
+            let mut version = "none".to_string();
+            let mut request_seen = false;
+            // the client retries quickly: serve connections for a while, stop at the first request
+            let deadline = tokio::time::Instant::now() + Duration::from_millis(2500);
+            loop {
+                let tcp = tokio::select! {
+                    _ = &mut stop_rx => break,
+                    r = tokio::time::timeout_at(deadline, listener.accept()) => match r {
+                        Ok(Ok((tcp, _))) => tcp,
+                        _ => break,
+                    },
+                };
+                if let Ok(Ok(mut tls)) = tokio::time::timeout(Duration::from_secs(2), acceptor.accept(tcp)).await {
+                    version = crate::net::version_name(tls.get_ref().1.protocol_version());
+                    if let crate::net::ReadOutcome::Bytes(b) = crate::net::read_n(&mut tls, 12, Duration::from_millis(1500)).await {
+                        request_seen = true;
+                        let reply = mbap_frame(u16::from_be_bytes([b[0], b[1]]), 1, &[3, 4, 0, 7, 0, 9]);
+                        crate::net::write_all(&mut tls, &reply).await;
+                        let _ = crate::net::read_n(&mut tls, 1, Duration::from_millis(300)).await;
+                        break;
+                    }
+                }
+            }
+            (request_seen, version)
+        });
+        let addr: SocketAddr = match addr_rx.recv_timeout(Duration::from_secs(5)) {
+            Ok(a) => a,
+            Err(_) => {
+                st.violation(Violation { signature: "MACHINERY:peer-server".into(), summary: "the rustls peer did not start".into(), replay: json!({}) });
+                return st;
+            }
+        };
+        let (trust, local) = if self_signed { (present_trust(present), "ss_client") } else { ("ca_a", "cli_operator") };
+        let states = Arc::new(Mutex::new(StateLog::default()));
+        let destroyed = Arc::new(Mutex::new(0));
+        let listener = ffi::ClientStateListener { on_change: Some(on_client_state), on_destroy: Some(ctx_destroy::<StateLog>), ctx: ctx_new(states.clone(), destroyed.clone()) };
+        let mut out: *mut rodbus_ffi::ClientChannel = null_mut();
+        let host = cstr("127.0.0.1");
+        let (c_name, c_trust, c_local, c_key, c_empty) = (cstr(name), cstr(cert_path(trust).to_str().unwrap()), cstr(cert_path(local).to_str().unwrap()), cstr(key_path(local).to_str().unwrap()), cstr(""));
+        let tls = ffi::TlsClientConfig {
+            dns_name: c_name.as_ptr(),
+            peer_cert_path: c_trust.as_ptr(),
+            local_cert_path: c_local.as_ptr(),
+            private_key_path: c_key.as_ptr(),
+            password: c_empty.as_ptr(),
+            min_tls_version: min13 as c_int,
+            certificate_mode: self_signed as c_int,
+            allow_server_name_wildcard: wildcard,
+        };
+        let rc = unsafe { ffi::rodbus_client_channel_create_tls(rt.0, host.as_ptr(), addr.port(), 4, ffi::RetryStrategy { min_delay: 5000, max_delay: 5000 }, tls, decode_nothing(), listener, &mut out) };
+        let mut admitted = false;
+        let mut detail = format!("create rc {rc}");
+        if rc == OK {
+            let fc = FfiClient { ch: out, states, listener_destroyed: destroyed };
+            unsafe { ffi::rodbus_client_channel_enable(fc.ch) };
+            let t = Instant::now();
+            while t.elapsed() < Duration::from_secs(4) {
+                let s = fc.states.lock().unwrap().states.clone();
+                if s.contains(&2) || s.contains(&3) {
+                    break;
+                }
+                std::thread::sleep(Duration::from_millis(1));
+            }
+            if fc.states.lock().unwrap().states.contains(&2) {
+                let (_rc, cbs, _d) = fc.call(Op::ReadHolding, 1, 2000, 0, 2);
+                let comps = wait_completion(&cbs, 4000);
+                admitted = comps == vec![Completion::Regs(vec![(0, 7), (1, 9)])];
+                detail = format!("connected, request completed with {comps:?}");
+            } else {
+                detail = format!("states {:?}", fc.states.lock().unwrap().states);
+            }
+            drop(fc);
+        }
+        // the channel is gone: nothing more can arrive at the peer
+        let _ = stop_tx.send(());
+        let (request_seen, version) = crate::net::rt().block_on(async { tokio::time::timeout(Duration::from_secs(6), peer_task).await.ok().and_then(|x| x.ok()).unwrap_or((false, "none".into())) });
+        st.evaluations += 1;
+        st.class("config:tls-client");
+        st.observe(&(self_signed, min13, peer, present, name, wildcard, admitted));
+        if admitted != expect || request_seen != expect || (admitted && min13 && version != "1.3") {
+            st.violation(Violation {
+                signature: format!("tls-client-config-not-forwarded:min13={min13}:self_signed={self_signed}:name={name}:wildcard={wildcard}"),
+                summary: format!("C ABI TLS client (min version {}, {} mode, name {name:?}, allow_server_name_wildcard={wildcard}) against a peer offering {peer:?} with certificate {present}: admitted={admitted} (peer saw a request: {request_seen}, TLS {version}; {detail}), the same-named Rust configuration gives admitted={expect}", if min13 { "1.3" } else { "1.2" }, if self_signed { "self-signed" } else { "authority" }),
+                replay: json!({"kind": "c18-enums"}),
+            });
+        }
+    }
+    st
+}
+
+/// Link-time interposition of `tcsetattr`: the Linux pty driver forces CS8 and clears PARENB, so
+/// what a caller *asked for* is only visible in the call itself. Every call made by this process
+/// (the serial port library calls it when a port is opened) is recorded with the device number
+/// of the terminal and then forwarded to libc.
+static TCSETATTR_LOG: Mutex<Vec<(u64, u32, u32, u32)>> = Mutex::new(Vec::new());
+
+#[no_mangle]
+pub unsafe extern "C" fn tcsetattr(fd: c_int, optional_actions: c_int, termios: *const libc::termios) -> c_int {
+    type Real = unsafe extern "C" fn(c_int, c_int, *const libc::termios) -> c_int;
+    static REAL: std::sync::OnceLock<usize> = std::sync::OnceLock::new();
+    let real = *REAL.get_or_init(|| libc::dlsym(libc::RTLD_NEXT, c"tcsetattr".as_ptr()) as usize);
+    if !termios.is_null() {
+        let mut stat: libc::stat = std::mem::zeroed();
+        if libc::fstat(fd, &mut stat) == 0 {
+            let t = &*termios;
+            let cflag = t.c_cflag & (libc::CSIZE | libc::PARENB | libc::PARODD | libc::CSTOPB | libc::CRTSCTS);
+            let iflag = t.c_iflag & (libc::IXON | libc::IXOFF);
+            if let Ok(mut g) = TCSETATTR_LOG.lock() {
+                g.push((stat.st_rdev as u64, cflag, iflag, libc::cfgetospeed(t)));
+            }
+        }
+    }
+    if real == 0 {
+        return -1;
+    }
+    let f: Real = std::mem::transmute(real);
+    f(fd, optional_actions, termios)
+}
+
+/// the same for `ioctl(fd, TCSETS2, ..)`, which is what the serial port library uses on Linux to
+/// apply the settings of a port (three-argument form; every other request is forwarded untouched)
+#[no_mangle]
+pub unsafe extern "C" fn ioctl(fd: c_int, request: std::os::raw::c_ulong, arg: *mut c_void) -> c_int {
+    type Real = unsafe extern "C" fn(c_int, std::os::raw::c_ulong, *mut c_void) -> c_int;
+    static REAL: std::sync::OnceLock<usize> = std::sync::OnceLock::new();
+    let real = *REAL.get_or_init(|| libc::dlsym(libc::RTLD_NEXT, c"ioctl".as_ptr()) as usize);
+    if request == libc::TCSETS2 as std::os::raw::c_ulong && !arg.is_null() {
+        let mut stat: libc::stat = std::mem::zeroed();
+        if libc::fstat(fd, &mut stat) == 0 {
+            let t = &*(arg as *const libc::termios2);
+            let cflag = t.c_cflag & (libc::CSIZE | libc::PARENB | libc::PARODD | libc::CSTOPB | libc::CRTSCTS);
+            let iflag = t.c_iflag & (libc::IXON | libc::IXOFF);
+            if let Ok(mut g) = TCSETATTR_LOG.lock() {
+                g.push((stat.st_rdev as u64, cflag, iflag, t.c_ospeed));
+            }
+        }
+    }
+    if real == 0 {
+        return -1;
+    }
+    let f: Real = std::mem::transmute(real);
+    f(fd, request, arg)
+}
+
+/// the line settings last requested for the pty's slave by anybody in this process
+fn line_settings(pty: &crate::checks::serial_pty::Pty) -> Option<(u32, u32, u32)> {
+    let path = cstr(&pty.slave_path);
+    let rdev = unsafe {
+        let mut stat: libc::stat = std::mem::zeroed();
+        if libc::stat(path.as_ptr(), &mut stat) != 0 {
+            return None;
+        }
+        stat.st_rdev as u64
+    };
+    if std::env::var("MC_DEBUG").is_ok() {
+        eprintln!("DEBUG tcsetattr log for rdev {rdev:#x}: {:?}", TCSETATTR_LOG.lock().unwrap().iter().rev().take(6).collect::<Vec<_>>());
+    }
+    TCSETATTR_LOG.lock().unwrap().iter().rev().find(|e| e.0 == rdev).map(|e| (e.1, e.2, e.3))
+}
+
+struct RustPortStates(Arc<Mutex<Vec<String>>>);
+
+impl rodbus::client::Listener<rodbus::client::PortState> for RustPortStates {
+    fn update(&mut self, value: rodbus::client::PortState) -> rodbus::MaybeAsync<()> {
+        let name = match value {
+            rodbus::client::PortState::Disabled => "Disabled",
+            rodbus::client::PortState::Wait(_) => "Wait",
+            rodbus::client::PortState::Open => "Open",
+            rodbus::client::PortState::Shutdown => "Shutdown",
+        };
+        self.0.lock().unwrap().push(name.to_string());
+        rodbus::MaybeAsync::ready(())
+    }
+}
+
+const PORT_STATE_NAMES: [&str; 4] = ["Disabled", "Wait", "Open", "Shutdown"];
+
+/// serial port settings and port states through the C ABI: every value of DataBits, FlowControl,
+/// Parity and StopBits and three baud rates; the settings the kernel ends up with for the pty must
+/// be those the Rust API produces from the same-named values
+fn c18_serial(rt: &FfiRuntime) -> Stats {
+    use crate::checks::serial_pty::{open_pty, PortPath};
+    let mut st = Stats::default();
+    let wait_for = |f: &dyn Fn() -> bool, ms: u64| -> bool {
+        let t = Instant::now();
+        while t.elapsed() < Duration::from_millis(ms) {
+            if f() {
+                return true;
+            }
+            std::thread::sleep(Duration::from_millis(1));
+        }
+        f()
+    };
+    let mut n = 0usize;
+    for data_bits in 0..4 {
+        for flow in 0..3 {
+            for parity in 0..3 {
+                for stop in 0..2 {
+                    n += 1;
+                    let baud = [9600u32, 19200, 115200][n % 3];
+                    // C ABI
+                    let pty = match open_pty() {
+                        Ok(p) => p,
+                        Err(e) => {
+                            st.violation(Violation { signature: "MACHINERY:pty".into(), summary: e, replay: json!({}) });
+                            return st;
+                        }
+                    };
+                    let states = Arc::new(Mutex::new(StateLog::default()));
+                    let destroyed = Arc::new(Mutex::new(0));
+                    let listener = ffi::PortStateListener { on_change: Some(on_client_state), on_destroy: Some(ctx_destroy::<StateLog>), ctx: ctx_new(states.clone(), destroyed.clone()) };
+                    let mut out: *mut rodbus_ffi::ClientChannel = null_mut();
+                    let path = cstr(&pty.slave_path);
+                    let settings = ffi::SerialPortSettings { baud_rate: baud, data_bits, flow_control: flow, parity, stop_bits: stop };
+                    let rc = unsafe { ffi::rodbus_client_channel_create_rtu(rt.0, path.as_ptr(), settings, 4, ffi::RetryStrategy { min_delay: 50, max_delay: 50 }, decode_nothing(), listener, &mut out) };
+                    let mut ffi_line = None;
+                    if rc == OK {
+                        unsafe { ffi::rodbus_client_channel_enable(out) };
+                        if wait_for(&|| states.lock().unwrap().states.contains(&2), 3000) {
+                            ffi_line = line_settings(&pty);
+                        }
+                        unsafe { ffi::rodbus_client_channel_destroy(out) };
+                    }
+                    // Rust API with the same-named values
+                    let pty2 = match open_pty() {
+                        Ok(p) => p,
+                        Err(e) => {
+                            st.violation(Violation { signature: "MACHINERY:pty".into(), summary: e, replay: json!({}) });
+                            return st;
+                        }
+                    };
+                    let rust_settings = rodbus::SerialSettings {
+                        baud_rate: baud,
+                        data_bits: [rodbus::DataBits::Five, rodbus::DataBits::Six, rodbus::DataBits::Seven, rodbus::DataBits::Eight][data_bits as usize],
+                        flow_control: [rodbus::FlowControl::None, rodbus::FlowControl::Software, rodbus::FlowControl::Hardware][flow as usize],
+                        parity: [rodbus::Parity::None, rodbus::Parity::Odd, rodbus::Parity::Even][parity as usize],
+                        stop_bits: [rodbus::StopBits::One, rodbus::StopBits::Two][stop as usize],
+                    };
+                    let rstates = Arc::new(Mutex::new(vec![]));
+                    let ch = {
+                        let _g = crate::net::rt().enter();
+                        rodbus::client::spawn_rtu_client_task(&pty2.slave_path, rust_settings, 4, rodbus::doubling_retry_strategy(Duration::from_millis(50), Duration::from_millis(50)), rodbus::DecodeLevel::nothing(), Some(Box::new(RustPortStates(rstates.clone()))))
+                    };
+                    let _ = crate::net::rt().block_on(ch.enable());
+                    let rust_line = if wait_for(&|| rstates.lock().unwrap().iter().any(|s| s == "Open"), 3000) { line_settings(&pty2) } else { None };
+                    drop(ch);
+                    st.evaluations += 1;
+                    st.class("config:serial-settings");
+                    if std::env::var("MC_DEBUG").is_ok() { eprintln!("DEBUG serial {data_bits} {flow} {parity} {stop} {baud}: ffi {ffi_line:?} rust {rust_line:?}"); }
+                    st.observe(&(data_bits, flow, parity, stop, baud, ffi_line));
+                    if ffi_line != rust_line || rust_line.is_none() {
+                        st.violation(Violation {
+                            signature: format!("serial-settings-not-forwarded:data_bits={data_bits}:flow={flow}:parity={parity}:stop={stop}"),
+                            summary: format!("SerialPortSettings {{baud {baud}, data_bits {data_bits}, flow_control {flow}, parity {parity}, stop_bits {stop}}}: the port opened through the C ABI has (cflag, iflag, speed) = {ffi_line:?} (create rc {rc}), through the Rust API with the same-named values {rust_line:?}"),
+                            replay: json!({"kind": "c18-enums"}),
+                        });
+                    }
+                }
+            }
+        }
+    }
+    // port states on a script: port missing (Wait), port appears (Open), disable (Disabled), destroy
+    {
+        let run_script = |ffi_side: bool| -> Vec<String> {
+            let pty = open_pty().expect("pty");
+            let port = PortPath::new();
+            if ffi_side {
+                let states = Arc::new(Mutex::new(StateLog::default()));
+                let destroyed = Arc::new(Mutex::new(0));
+                let listener = ffi::PortStateListener { on_change: Some(on_client_state), on_destroy: Some(ctx_destroy::<StateLog>), ctx: ctx_new(states.clone(), destroyed.clone()) };
+                let mut out: *mut rodbus_ffi::ClientChannel = null_mut();
+                let path = cstr(&port.0);
+                let settings = ffi::SerialPortSettings { baud_rate: 9600, data_bits: 3, flow_control: 0, parity: 0, stop_bits: 0 };
+                let rc = unsafe { ffi::rodbus_client_channel_create_rtu(rt.0, path.as_ptr(), settings, 4, ffi::RetryStrategy { min_delay: 30, max_delay: 30 }, decode_nothing(), listener, &mut out) };
+                if rc != OK {
+                    return vec![format!("create rc {rc}")];
+                }
+                unsafe { ffi::rodbus_client_channel_enable(out) };
+                wait_for(&|| states.lock().unwrap().states.contains(&1), 3000);
+                port.point_to(&pty.slave_path);
+                wait_for(&|| states.lock().unwrap().states.contains(&2), 3000);
+                unsafe { ffi::rodbus_client_channel_disable(out) };
+                wait_for(&|| states.lock().unwrap().states.last() == Some(&0), 3000);
+                unsafe { ffi::rodbus_client_channel_destroy(out) };
+                wait_for(&|| states.lock().unwrap().states.last() == Some(&3), 3000);
+                let v = states.lock().unwrap().states.clone();
+                v.iter().map(|s| PORT_STATE_NAMES.get(*s as usize).unwrap_or(&"?").to_string()).collect()
+            } else {
+                let rstates = Arc::new(Mutex::new(vec![]));
+                let ch = {
+                    let _g = crate::net::rt().enter();
+                    rodbus::client::spawn_rtu_client_task(&port.0, rodbus::SerialSettings::default(), 4, rodbus::doubling_retry_strategy(Duration::from_millis(30), Duration::from_millis(30)), rodbus::DecodeLevel::nothing(), Some(Box::new(RustPortStates(rstates.clone()))))
+                };
+                let _ = crate::net::rt().block_on(ch.enable());
+                wait_for(&|| rstates.lock().unwrap().iter().any(|s| s == "Wait"), 3000);
+                port.point_to(&pty.slave_path);
+                wait_for(&|| rstates.lock().unwrap().iter().any(|s| s == "Open"), 3000);
+                let _ = crate::net::rt().block_on(ch.disable());
+                wait_for(&|| rstates.lock().unwrap().last().map(|s| s == "Disabled").unwrap_or(false), 3000);
+                drop(ch);
+                wait_for(&|| rstates.lock().unwrap().last().map(|s| s == "Shutdown").unwrap_or(false), 3000);
+                let v = rstates.lock().unwrap().clone();
+                v
+            }
+        };
+        let dedup = |v: &Vec<String>| -> Vec<String> {
+            // the number of Wait announcements depends on how long the port stayed away
+            let mut o: Vec<String> = vec![];
+            for s in v {
+                if o.last() != Some(s) {
+                    o.push(s.clone());
+                }
+            }
+            o
+        };
+        let f = run_script(true);
+        let r = run_script(false);
+        st.evaluations += 1;
+        st.class("enum:port-state");
+        st.observe(&dedup(&f));
+        let want: Vec<String> = ["Disabled", "Wait", "Open", "Disabled", "Shutdown"].iter().map(|s| s.to_string()).collect();
+        if dedup(&f) != dedup(&r) || dedup(&r) != want {
+            st.violation(Violation { signature: "port-state-names".into(), summary: format!("C ABI port listener saw {f:?}, Rust listener {r:?} (expected the path Disabled, Wait, Open, Disabled, Shutdown)"), replay: json!({"kind": "c18-enums"}) });
+        }
+    }
+    st
+}
+
+/// self-signed mode: the client is configured with the certificate it expects; for the "other"
+/// peer certificate that is the regular one
+fn present_trust(_present: &str) -> &'static str {
+    "ss_server"
+}
+
 pub fn check_c18(tier: &str) -> i32 {
     let mut rep = Report::new(
         "C18",
         tier,
         "exploration",
-        "differential: every scenario runs once through the extern \"C\" functions of rodbus-ffi and once through the Rust API against identical scripted loopback peers. Client: 8 operations x outcomes {success with data, each exception code (all 256 for two operations, thorough: for all), bad reply, bad frame, timeout, connection closed} x unit ids {0,1,7,255} x timeouts {1 ms, 60 ms, 1 s against a silent peer; 10 s and 2^32-1 ms otherwise}; request bytes must be identical, the C callback must report the same values or the same-named error (hand-written name table), on_complete+on_failure exactly once, on_destroy exactly once; calls that themselves report an error (no connection, queue full, invalid range, null channel). Server: 4 write callbacks x WriteResult {success, 9 named exceptions, raw codes, callback not set}: reply bytes equal the Rust server's with the same-named result and the callback sees exactly the sent values. Enums: all 36 decode levels (compared through the log lines both APIs emit), client states on scripted connection histories, retry strategy through behaviour. distinct = distinct (operation, peer behaviour, outcome) triples",
+        "differential: every scenario runs once through the extern \"C\" functions of rodbus-ffi and once through the Rust API against identical scripted loopback peers. Client: 8 operations x outcomes {success with data, each exception code (all 256 for two operations, thorough: for all), bad reply, bad frame, timeout, connection closed} x unit ids {0,1,7,255} x timeouts {1 ms, 60 ms, 1 s against a silent peer; 10 s and 2^32-1 ms otherwise}; request bytes must be identical, the C callback must report the same values or the same-named error (hand-written name table), on_complete+on_failure exactly once, on_destroy exactly once; calls that themselves report an error (no connection, queue full, invalid range, null channel). Server: 4 write callbacks x WriteResult {success, 9 named exceptions, raw codes, callback not set}: reply bytes equal the Rust server's with the same-named result and the callback sees exactly the sent values. Enums: all 36 decode levels (compared through the log lines both APIs emit), client states on scripted connection histories, retry strategy through behaviour, TLS minimum version / certificate mode / expected name / wildcard switch of C-ABI clients and servers through admission by independent rustls peers, all 72 combinations of DataBits x FlowControl x Parity x StopBits (and three baud rates) through the line settings of a pty, port states on a scripted history. distinct = distinct (operation, peer behaviour, outcome) triples",
     );
     let thorough = rep.thorough();
-    let (a, b, c, d) = on_plain_thread(|| {
+    let (a, b, c, d, e, f) = on_plain_thread(|| {
         let rt = FfiRuntime::new(4);
         let a = c18_client_part(&rt, thorough);
         let b = c18_server_part(&rt, thorough);
         let c = c18_call_errors(&rt);
         let d = c18_enums(&rt);
-        (a, b, c, d)
+        let e = c18_tls(&rt);
+        let f = c18_serial(&rt);
+        (a, b, c, d, e, f)
     });
     rep.phase("client operations x outcomes", a, json!({}));
     rep.phase("server write callbacks x results", b, json!({}));
     rep.phase("calls that report an error", c, json!({}));
     rep.phase("enums and configuration", d, json!({}));
-    for c in ["outcome:success", "outcome:exception", "outcome:timeout", "outcome:io", "outcome:bad-frame", "outcome:bad-response", "write-result-success", "write-result-named-exception", "write-result-raw-exception", "write-callback-not-set", "call:no-connection", "call:queue-full", "call:parameter-validation", "enum:decode-level", "enum:client-state", "config:retry-strategy", "config:retry-strategy-doubling"] {
+    rep.phase("TLS configuration through the C ABI (client and server) against independent rustls peers", e, json!({}));
+    rep.phase("serial port settings and port states through the C ABI over ptys", f, json!({}));
+    for c in ["outcome:success", "outcome:exception", "outcome:timeout", "outcome:io", "outcome:bad-frame", "outcome:bad-response", "write-result-success", "write-result-named-exception", "write-result-raw-exception", "write-callback-not-set", "call:no-connection", "call:queue-full", "call:parameter-validation", "enum:decode-level", "enum:client-state", "config:retry-strategy", "config:retry-strategy-doubling", "config:tls-client", "config:tls-server", "config:serial-settings", "enum:port-state"] {
         rep.require_class(c);
     }
     rep.exhaustive = thorough;
-    rep.assumptions.push("serial settings, TLS settings and port states are not observable without hardware / are covered by C09; listed as not observed".into());
+    rep.assumptions.push("serial port settings are observed as the termios flags and speed passed to tcsetattr for the pty slave (link-time interposition inside the harness; the pty driver itself forces CS8 and no parity)".into());
     rep.finish()
 }
 
